@@ -18,7 +18,7 @@ use tls_parser::*;
 pub fn generate(rng: &mut Rng, prop: Prop) -> Scenario {
     let mut s = Scenario::new("taps");
     let confused = prop == Prop::C01;
-    let kind = if confused && rng.chance(1, 5) { *rng.pick(structs::CONFUSED_ONLY) } else { *rng.pick(structs::KINDS) };
+    let mut kind = if confused && rng.chance(1, 5) { *rng.pick(structs::CONFUSED_ONLY) } else { *rng.pick(structs::KINDS) };
     let mut bytes = structs::structure(rng, kind);
     let mut lied = 0u64;
     // length-lie / corruption of nested fields (constructive: a single field changed)
@@ -36,11 +36,35 @@ pub fn generate(rng: &mut Rng, prop: Prop) -> Scenario {
         }
         lied = 1;
     }
+    // u24-lie: the top byte of a 24-bit length field set, with more than 64 KiB in flight behind the
+    // structure - enough to satisfy the enlarged length if a parser lets it reach past its container
+    let mut big_trail = false;
+    if !confused && rng.chance(1, 40) {
+        let (k2, offs): (&str, &[usize]) = match rng.below(4) {
+            0 => ("tls_plaintext", &[6]),
+            1 => ("hs", &[1, 4, 7]),
+            2 => ("dtls_record", &[14, 22]),
+            _ => ("dhs", &[1, 9]),
+        };
+        let b2 = structs::structure(rng, k2);
+        let at = *rng.pick(offs);
+        if b2.len() > at && (k2 != "tls_plaintext" || b2[0] == 22) {
+            kind = k2;
+            bytes = b2;
+            bytes[at] = *rng.pick(&[1u8, 1, 2, 0x80]);
+            lied = 1;
+            big_trail = true;
+        }
+    }
     s.push(Item::new("knob").int("confused", confused as u64).int("aux", rng.below(300)));
     s.push(Item::new("struct").str("kind", kind).bytes("bytes", &bytes).int("lied", lied));
     // what is already in flight behind the structure: nothing, garbage, or bytes that look like
     // valid structures themselves
     let trail = match rng.below(5) {
+        _ if big_trail => {
+            let n = rng.urange(65536, 70000) + if bytes.get(1) == Some(&2) || bytes.get(6) == Some(&2) { 65536 } else { 0 };
+            if rng.chance(1, 2) { vec![rng.u8(); n] } else { rng.bytes(n) }
+        }
         0 => Vec::new(),
         1 => {
             let n = rng.small_len(40);
